@@ -4,6 +4,7 @@ import (
 	"encoding/base64"
 	"errors"
 	"fmt"
+	"reflect"
 	"strings"
 	"text/template"
 
@@ -226,6 +227,7 @@ func SprigFuncs(t *template.Template) template.FuncMap {
 		}
 	}
 	allowedFuncs["b64decMap"] = base64decodeMap
+	guardAgainstCycles(allowedFuncs)
 
 	includedNames := map[string]int{}
 	// Include function executes a template with given data and returns the result as string.
@@ -250,6 +252,169 @@ func SprigFuncs(t *template.Template) template.FuncMap {
 	allowedFuncs["toYAML"] = toYAML
 	allowedFuncs["fromYAML"] = fromYAML
 	return allowedFuncs
+}
+
+var ErrCyclicData = errors.New("dict would contain itself")
+
+// Functions that modify a dict in place could make it contain itself.
+// Printing, copying or merging such a value never terminates, so building it is refused.
+func guardAgainstCycles(funcs map[string]any) {
+	if _, ok := funcs["set"]; ok {
+		funcs["set"] = func(d map[string]any, key string, value any) (map[string]any, error) {
+			previous, existed := d[key]
+			d[key] = value
+			if hasCycle(d, map[uintptr]struct{}{}) {
+				if existed {
+					d[key] = previous
+				} else {
+					delete(d, key)
+				}
+				return nil, fmt.Errorf("set key %s: %w", key, ErrCyclicData)
+			}
+			return d, nil
+		}
+	}
+	for _, name := range []string{"merge", "mergeOverwrite", "mustMerge", "mustMergeOverwrite"} {
+		var merge func(dst map[string]any, srcs ...map[string]any) (any, error)
+		switch fn := funcs[name].(type) {
+		case func(map[string]any, ...map[string]any) any:
+			merge = func(dst map[string]any, srcs ...map[string]any) (any, error) { return fn(dst, srcs...), nil }
+		case func(map[string]any, ...map[string]any) (any, error):
+			merge = fn
+		default:
+			continue
+		}
+		funcs[name] = func(dst map[string]any, srcs ...map[string]any) (any, error) {
+			// Merging attaches parts of the sources to dst by reference.
+			// Sources sharing a dict with dst are copied first, so dst can not end up inside itself.
+			reachable := map[uintptr]struct{}{}
+			collectDicts(reflect.ValueOf(dst), reachable)
+			safeSrcs := make([]map[string]any, len(srcs))
+			for i, src := range srcs {
+				if hasCycle(src, map[uintptr]struct{}{}) {
+					return nil, fmt.Errorf("%s: %w", name, ErrCyclicData)
+				}
+				safeSrcs[i] = src
+				if sharesDict(reflect.ValueOf(src), reachable) {
+					safeSrcs[i], _ = copyValue(reflect.ValueOf(src)).Interface().(map[string]any)
+				}
+			}
+			return merge(dst, safeSrcs...)
+		}
+	}
+}
+
+// collectDicts adds every dict reachable from v to seen.
+func collectDicts(v reflect.Value, seen map[uintptr]struct{}) {
+	for v.Kind() == reflect.Interface && !v.IsNil() {
+		v = v.Elem()
+	}
+	switch v.Kind() { //nolint:exhaustive
+	case reflect.Map:
+		if v.IsNil() {
+			return
+		}
+		if _, ok := seen[v.Pointer()]; ok {
+			return
+		}
+		seen[v.Pointer()] = struct{}{}
+		for iter := v.MapRange(); iter.Next(); {
+			collectDicts(iter.Value(), seen)
+		}
+	case reflect.Slice, reflect.Array:
+		for i := range v.Len() {
+			collectDicts(v.Index(i), seen)
+		}
+	}
+}
+
+// sharesDict reports whether a dict reachable from v is in seen. v must not be cyclic.
+func sharesDict(v reflect.Value, seen map[uintptr]struct{}) bool {
+	for v.Kind() == reflect.Interface && !v.IsNil() {
+		v = v.Elem()
+	}
+	switch v.Kind() { //nolint:exhaustive
+	case reflect.Map:
+		if v.IsNil() {
+			return false
+		}
+		if _, ok := seen[v.Pointer()]; ok {
+			return true
+		}
+		for iter := v.MapRange(); iter.Next(); {
+			if sharesDict(iter.Value(), seen) {
+				return true
+			}
+		}
+	case reflect.Slice, reflect.Array:
+		for i := range v.Len() {
+			if sharesDict(v.Index(i), seen) {
+				return true
+			}
+		}
+	}
+	return false
+}
+
+// copyValue copies dicts and lists recursively, other values are taken as they are. v must not be cyclic.
+func copyValue(v reflect.Value) reflect.Value {
+	switch v.Kind() { //nolint:exhaustive
+	case reflect.Interface:
+		if v.IsNil() {
+			return v
+		}
+		out := reflect.New(v.Type()).Elem()
+		out.Set(copyValue(v.Elem()))
+		return out
+	case reflect.Map:
+		if v.IsNil() {
+			return v
+		}
+		out := reflect.MakeMapWithSize(v.Type(), v.Len())
+		for iter := v.MapRange(); iter.Next(); {
+			out.SetMapIndex(iter.Key(), copyValue(iter.Value()))
+		}
+		return out
+	case reflect.Slice:
+		if v.IsNil() {
+			return v
+		}
+		out := reflect.MakeSlice(v.Type(), v.Len(), v.Len())
+		for i := range v.Len() {
+			out.Index(i).Set(copyValue(v.Index(i)))
+		}
+		return out
+	}
+	return v
+}
+
+// hasCycle reports whether a dict reachable from v contains itself. path holds the dicts between the root and v.
+func hasCycle(v any, path map[uintptr]struct{}) bool {
+	rv := reflect.ValueOf(v)
+	switch rv.Kind() { //nolint:exhaustive
+	case reflect.Map:
+		if rv.IsNil() {
+			return false
+		}
+		ptr := rv.Pointer()
+		if _, onPath := path[ptr]; onPath {
+			return true
+		}
+		path[ptr] = struct{}{}
+		defer delete(path, ptr)
+		for iter := rv.MapRange(); iter.Next(); {
+			if hasCycle(iter.Value().Interface(), path) {
+				return true
+			}
+		}
+	case reflect.Slice, reflect.Array:
+		for i := range rv.Len() {
+			if hasCycle(rv.Index(i).Interface(), path) {
+				return true
+			}
+		}
+	}
+	return false
 }
 
 func base64decodeMap(data map[string]any) (
